@@ -68,9 +68,9 @@ func (d *ConditionalPackageDependency) Dependencies() []PackageDependency {
 func (d *ConditionalPackageDependency) String() string {
 	var str string
 	if d.Type == Pkg_dep_when_use_set {
-		str = fmt.Sprintf("%s (", d.useFlag)
+		str = fmt.Sprintf("%s? (", d.useFlag)
 	} else if d.Type == Pkg_dep_when_use_unset {
-		str = fmt.Sprintf("!%s (", d.useFlag)
+		str = fmt.Sprintf("!%s? (", d.useFlag)
 	} else {
 		str = []string{"", "(", "|| (", "^^ (", "?? ("}[d.Type]
 	}
